@@ -54,6 +54,7 @@ def reset_globals(seed: int = 0):
     cubed.core.optimization.sym_counter = 0
     cubed.runtime.utils.sym_counter = 0
     Callback.active.clear()
+    cubed.config.refresh()  # undo any cubed.config.set() of an earlier run
     cubed.spec._spec_from_serialized_config.cache_clear()
     try:
         cubed.core.plan.Plan._finalize.cache_clear()
